@@ -159,6 +159,18 @@ CHECKS = {
         design_ref="DESIGN.md 5 C21",
         note=NOTE_COMMON + " The wavelength is taken from abtem.core.energy (C24 is not claimed); tolerance 1e-7 on |transfer| = 1.",
     ),
+    "C22": dict(
+        text=("TLC enumerates ConversionsImpl - the sign and arctan2 branch structure of polar2cartesian/cartesian2polar with the "
+              "Cartesian pair held in polar form and angles as integers in units of pi/288 - for all 5 supported coefficient pairs "
+              "x magnitudes {-2..2} x 49 angles on the pi/24 lattice over [-pi, pi] (1225 cases, exhaustive) and checks the round "
+              "trip stays in the class (C, phi) ~ (-C, phi + pi/m), phi mod 2 pi/m, with exact integer division; every case "
+              "(with C10/C30 alongside) and seeded joint cases with all pairs set run on the real functions; ConversionsTrace.tla "
+              "decides class membership of the decoded (C', phi') in integer arithmetic, pass-through of the isotropic terms and "
+              "bounds the logged chi deviation on a 7x16 grid."),
+        technique="TLA+ branch-structure model over an integer angle lattice (TLC) + TLC-enumerated cases on the real functions + TLC trace validation",
+        design_ref="DESIGN.md 5 C22",
+        note=NOTE_COMMON + " Returned floats are decoded to lattice integers (1e-9 / 1e-6 guards; undecodable = rejected); chi tolerance 1e-7 relative.",
+    ),
 }
 
 NOT_APPLICABLE = {
